@@ -4,7 +4,7 @@ sys.path.insert(0, os.path.dirname(os.path.abspath(__file__)))
 import vlib, flow
 import pmm_common as pc
 import gen_trans
-gen_trans.register('pmm_bitmap.json')   # Go -> Gallina translation of poolForFrame/markFrame/FreeFrame/AllocFrame/reserveKernelFrames (Gen/Trans_pmm_bitmap.v, used by Pmm/BitmapTrans.v, Pmm/BitmapTrans2.v)
+gen_trans.register('pmm_bitmap.json')   # Go -> Gallina translation of poolForFrame/markFrame/FreeFrame/AllocFrame/reserveKernelFrames/reserveEarlyAllocatorFrames + BootMemAllocator.AllocFrame (Gen/Trans_pmm_bitmap.v, used by Pmm/BitmapTrans.v, BitmapTrans2.v, BitmapTrans3.v)
 
 H = os.path.join(vlib.ROOT, 'harness/kernel/mm/pmm')
 vlib.register_const_dump('kernel', 'mm/pmm', os.path.join(H, 'zz_verif_consts_test.go'))
@@ -12,7 +12,7 @@ vlib.register_const_dump('kernel', 'mm/pmm', os.path.join(H, 'zz_verif_consts_te
 
 class C03(flow.Spec):
     prop = 'C03'
-    props_files = ['theories/Props/C03.v', 'theories/Props/C03_examples.v', 'theories/Props/C03_trans.v', 'theories/Props/C03_trans_examples.v', 'theories/Props/C03_trans2.v', 'theories/Props/C03_trans2_examples.v']
+    props_files = ['theories/Props/C03.v', 'theories/Props/C03_examples.v', 'theories/Props/C03_trans.v', 'theories/Props/C03_trans_examples.v', 'theories/Props/C03_trans2.v', 'theories/Props/C03_trans2_examples.v', 'theories/Props/C03_trans3.v', 'theories/Props/C03_trans3_examples.v']
     model_targets = ['theories/Pmm/Bitmap.vo']
     pkg = 'mm/pmm'
     harness = [os.path.join(H, 'zz_verif_pmm_test.go'), os.path.join(H, 'zz_verif_pmm_util_test.go')]
